@@ -359,7 +359,7 @@ def main():
                       'malformed answers and an S(WTX) block without WTXM byte are C08 (Model/TagAct.v, Model/TagReadAnyB.v)']
     ck.coq(gen=['IsoDepK'],
            targets=['Proofs/IsoDep.vo', 'Proofs/IsoDepSync.vo', 'Proofs/IsoDepLegacy.vo', 'Proofs/IsoDepApdu.vo',
-                    'Proofs/IsoDepStream.vo', 'Bridge/IsoDep.vo'], props='C12')
+                    'Proofs/IsoDepStream.vo', 'Proofs/IsoDepSession.vo', 'Bridge/IsoDep.vo'], props='C12')
     mr = ck.model()
     if mr is None:
         ck.finish()
@@ -557,8 +557,45 @@ def main():
             sim_expect.append(' '.join(outs) + ' | ' + card.state())
             ck.count('sim-vs-coq-card')
 
+    # ------------------------------------------------------------------ reader alone against scripted (also non-conformant) answers
+    # IsoDepInitiator.exchange over a clf that answers from a list (then times out for ever) vs run_stream of the model:
+    # short S-blocks (F2 / F3 without WTXM), empty answers, R(NAK), wrong block numbers, blocks with CID bits, ...
+    str_lines, str_expect = [], []
+    if not ck.replay:
+        alphabet = ['02aabb', '03aabb', '12aa', '13aa', '0290', '03', '02', 'a2', 'a3', 'b2', 'b3', 'f2', 'f3', 'f201', 'f23b', 'f301',
+                    'f20102', '', 'T', 'E', 'P', 'c2', '0a00aa', 'aa', '22']
+        streams = [[x] for x in alphabet] + [[x, y] for x in ('f201', '12aa', 'a3', 'T', 'E', '02aa') for y in alphabet]
+        streams += [['12aa', 'f201', y] for y in alphabet] + [['f201', 'f201', y] for y in alphabet]
+        for _ in range(1500 if quick else 20000):
+            streams.append([rng.choice(alphabet) for _ in range(rng.randrange(1, 8))])
+        for st in streams:
+            for cmdhex, fwt, nretry in (('00a40000', 0.3, 3), ('00a4040007d276000085010100', 2.0, 0), ('00a4040007d276000085010100', 0.6, 1)):
+                rsps = [nfc.clf.TimeoutError if x == 'T' else nfc.clf.TransmissionError if x == 'E' else nfc.clf.ProtocolError if x == 'P'
+                        else bytes.fromhex(x) for x in st]
+
+                class Clf(object):
+                    def __init__(self):
+                        self.q = list(rsps)
+                        self.n = 0
+
+                    def exchange(self, data, timeout):
+                        self.n += 1
+                        if self.n > 60:
+                            raise Loop()
+                        r = self.q.pop(0) if self.q else nfc.clf.TimeoutError
+                        if isinstance(r, type):
+                            raise r
+                        return bytearray(r)
+                dep = nfc.tag.tt4.IsoDepInitiator(Clf(), 16, fwt)
+                assert dep.n_retry_nak == nretry
+                got = res_string(lambda: dep.exchange(bytearray.fromhex(cmdhex)))
+                str_lines.append('stream 13 %d %d %s 60 %s %s T' % (nretry, nretry, flags, cmdhex, ' '.join(x or '-' for x in st)))
+                str_expect.append(got)
+                ck.case(('stream', tuple(st), cmdhex, nretry), True)
+                ck.count('reader-vs-scripted-answers')
+
     # ------------------------------------------------------------------ model run + compare
-    out = mr.run(lines + act_lines + sim_lines)
+    out = mr.run(lines + act_lines + sim_lines + str_lines)
     nmis = 0
     for line, (kind, spec, impl), got in zip(lines, expect, out):
         if got != impl:
@@ -573,7 +610,11 @@ def main():
         if got != impl:
             nmis += 1
             ck.correspondence_mismatch('simulator-vs-coq-card', {'input': line[:400], 'sim': impl[:400], 'coq': got[:400]})
-    ck.cov['traces_validated_against_impl'] = len(lines) + len(act_lines) + len(sim_lines) - nmis
+    for line, impl, got in zip(str_lines, str_expect, out[len(lines) + len(act_lines) + len(sim_lines):]):
+        if got.replace(' ', '=', 1) != impl and got != impl:
+            nmis += 1
+            ck.correspondence_mismatch('reader-vs-scripted-answers', {'input': line, 'impl': impl, 'model': got})
+    ck.cov['traces_validated_against_impl'] = len(lines) + len(act_lines) + len(sim_lines) + len(str_lines) - nmis
 
     # ------------------------------------------------------------------ informational: non-conformant responder (C08)
     clf = ScriptClf([b'\xa3'] * 12)
